@@ -395,6 +395,11 @@ func c04straceChild(args []string) int {
 	dir := args[0]
 	seed, _ := strconv.ParseInt(args[1], 10, 64)
 	runtime.LockOSThread()
+	if err := core.Jail(dir); err != nil {
+		return 2
+	}
+	_ = os.Mkdir("/in", 0o777)
+	dir = "/in"
 	env := &core.Env{Seed: seed, Tier: "quick"}
 	if len(args) > 2 {
 		env.Tier = args[2]
